@@ -106,7 +106,7 @@ def gen_cases(rng, tier, count=None):
         cases.append(gen.algo_case(rng, algo, tier, part=part, dim=dim, fams=fams, inject_p=0.3))
     for c in cases:
         if c["n"] <= 333 and rng.random() < 0.5:
-            c["probe_stops"] = float(rng.choice([0.1, 0.3, 1.0]))
+            c["probe_stops"] = float(rng.choice([0.1, 0.3, 1.0])) if c["algo"] != "VROOM" else 0.05
             c["_cost"] *= 3
     return cases
 
